@@ -335,6 +335,8 @@ CHECKS = {
              "is delivered identically (type-level hooks skipped on the literal path exactly where they already ran at variable "
              "coercion; input-field hooks not). OUTPUT SIDE (Model/DirectivesOut.v): object / list / leaf positions annotated "
              "with directive instances; executing the coercers with logging hooks equals the pure view for every annotated type "
+             "(abstract positions: the abstract type's hooks, then the runtime object type's, then the fields = the object run over the "
+             "concatenated instances, Proofs/DirectiveAbstract.v; interface / union positions are executed and compared per run) "
              "and value; a type's on_pre_output_coercion hooks meet every value at a position of that type exactly once, null "
              "results and null list items included (compared inside Coq with the engine's data and invocation log for nested "
              "object / list fields). The check decorates scalar, input objects, input fields, arguments, field "
